@@ -1245,6 +1245,9 @@ class Evaluator:
             if units and units[-1] == args[0][1][-1]:
                 return args[0][2]           # get::<U>(new::<U>(x)) = x
         target = self.prog.fn(name) or self.prog.fn(declared)
+        if target is None and declared in ("core::cmp::PartialEq::eq", "core::cmp::PartialEq::ne") and len(args) == 2:
+            # equality of a library type: an uninterpreted symmetric relation on values; `ne` is its negation
+            return _m_eq(self, args, t, depth) if declared.endswith("::eq") else _m_ne(self, args, t, depth)
         if target is not None and target.kind == "Closure" and declared.startswith("core::ops::function::Fn") and len(args) == 2:
             # `f(a, b)` on a closure value is Fn::call(&f, (a, b)): the closure body takes the arguments untupled
             packed = args[1]
